@@ -24,7 +24,7 @@ PROPS["C20"] = {
                     "non-reproducible one is NONDETERMINISM, exit status 2)",
                     "sequentially consistent hardware model: the scheduler serialises the threads, weak-memory effects are not explored",
                     "malloc/free/realloc of the C library are thread-safe (shared default allocator variant)",
-                    "host build (x86-64 Linux, clang, default ARDUINOJSON_* configuration)"],
+                    "host build (x86-64 Linux, clang); default ARDUINOJSON_* configuration, a small-pool geometry, and the Arduino option set with the repository stubs (String, Print, Stream, flash)"],
     "quick": [
         dict(_TX, mode="selftest", flavour="sanmt", shards=1),
         dict(_TX, mode="sched", flavour="sanmt", shards=16, args=["--threads=2", "--P=2"]),
@@ -32,6 +32,9 @@ PROPS["C20"] = {
         # 4-slot pools: the shared read-only document (and every thread's own documents) spans several pools
         dict(_TX, mode="sched", flavour="sanmt", shards=16, args=["--threads=2", "--P=1"], defs=_SMALL_POOLS),
         dict(_TX, mode="tsan", flavour="tsan", shards=1, env=_TSAN_ENV, args=["--iters=1000"], defs=_SMALL_POOLS),
+        # the Arduino configuration: String / Print destinations, Stream / String / flash sources (bodies G and H)
+        dict(_TX, mode="sched", flavour="sanmt", shards=16, arduino=True, args=["--threads=2", "--P=1", "--tuples=G+G,H+H,G+H,C+G,B+H"]),
+        dict(_TX, mode="tsan", flavour="tsan", shards=1, arduino=True, env=_TSAN_ENV, args=["--iters=1000", "--groups=G,H,Gd,Hd,G+H,C+G,B,C"]),
     ],
     "thorough": [
         dict(_TX, mode="selftest", flavour="sanmt", shards=1),
@@ -40,6 +43,8 @@ PROPS["C20"] = {
         dict(_TX, mode="tsan", flavour="tsan", shards=1, env=_TSAN_ENV, args=["--iters=20000"]),
         dict(_TX, mode="sched", flavour="sanmt", shards=16, args=["--threads=2", "--P=2"], defs=_SMALL_POOLS),
         dict(_TX, mode="tsan", flavour="tsan", shards=1, env=_TSAN_ENV, args=["--iters=5000"], defs=_SMALL_POOLS),
+        dict(_TX, mode="sched", flavour="sanmt", shards=16, arduino=True, args=["--threads=2", "--P=2", "--tuples=G+G,H+H,G+H,C+G,B+H"]),
+        dict(_TX, mode="tsan", flavour="tsan", shards=1, arduino=True, env=_TSAN_ENV, args=["--iters=5000", "--groups=G,H,Gd,Hd,G+H,C+G,B,C"]),
     ],
     "thorough_deadline": 840,
 }
